@@ -453,6 +453,9 @@ class Evaluator(object):
     def ev_Name(self, n, st):
         if n.id in st.env:
             return st.env[n.id]
+        if n.id in getattr(self, 'locals_', ()):
+            # a function-local that is not bound on this path
+            st.trace.append(('unbound', n.id, getattr(n, 'lineno', None)))
         return ('name', n.id)
 
     def ev_Attribute(self, n, st):
@@ -737,6 +740,36 @@ class Summarizer(Evaluator):
 
     def summarize(self, func, env=None):
         st = State(env=dict(env or {}))
+        # locals: names stored somewhere in the function (not parameters,
+        # not declared global)
+        params_ = set(a.arg for a in func.args.args + func.args.kwonlyargs)
+        if func.args.vararg:
+            params_.add(func.args.vararg.arg)
+        if func.args.kwarg:
+            params_.add(func.args.kwarg.arg)
+        glob = set()
+        stored = set()
+        todo = list(func.body)
+        while todo:
+            x = todo.pop()
+            if isinstance(x, (ast.FunctionDef, ast.ClassDef, ast.Lambda)):
+                if isinstance(x, (ast.FunctionDef, ast.ClassDef)):
+                    stored.add(x.name)
+                continue
+            if isinstance(x, (ast.Global, ast.Nonlocal)):
+                glob.update(x.names)
+            if isinstance(x, ast.Name) and isinstance(x.ctx, ast.Store):
+                stored.add(x.id)
+            if isinstance(x, (ast.ListComp, ast.SetComp, ast.DictComp,
+                              ast.GeneratorExp)):
+                continue    # comprehension targets are their own scope
+            if isinstance(x, ast.ExceptHandler) and x.name:
+                stored.add(x.name)
+            if isinstance(x, (ast.Import, ast.ImportFrom)):
+                for a in x.names:
+                    stored.add((a.asname or a.name).split('.')[0])
+            todo.extend(ast.iter_child_nodes(x))
+        self.locals_ = stored - params_ - glob
         outs = self.block(func.body, st)
         paths = []
         for s, o in outs:
